@@ -242,6 +242,19 @@ theorem spelling_irrelevant_view (ls : List Layer) (m : Mem) (s₁ s₂ : Str)
     | pre p => simp only [vGet, vPut, vDelete, vDeleteAll, vWalk, mapFullPath, h, and_self]
     | filt f => simp only [vGet, vPut, vDelete, vDeleteAll, vWalk, h, and_self]
 
+/-- walk_exact through views: a walk through ANY nesting of prefix-mapped views visits exactly
+    the objects stored under (view root ++ requested prefix) — component-wise —, each once,
+    reporting view-relative paths. -/
+theorem walk_exact_through_prefix_views (ls : List KLayer) (hls : KLayersOK ls) (hpre : PreOnly ls)
+    (m : Mem) (hv : KeysValid m) (hn : NodupKeys m) (pfx : Str) (objs : List (Str × Content))
+    (h : vWalk (ls.map KLayer.toLayer) m pfx = .ok objs) :
+    ∃ kq : Key, AllProper kq ∧ normalizeAndValidate pfx = .ok (renderKey kq) ∧
+      NodupKeys objs ∧
+      ∀ (kk : Key) (c : Content), AllProper kk →
+        ((renderKey kk, c) ∈ objs ↔ (kq <+: kk ∧ Mem.find m (renderKey (fullKey ls ++ kk)) = some c)) := by
+  obtain ⟨kq, h1, h2, h3, _, h5⟩ := vWalk_pre_exact ls hls hpre m hv hn pfx objs h
+  exact ⟨kq, h1, h2, h3, h5⟩
+
 /-- Prefixes are path-wise, not string-wise. -/
 theorem prefix_is_pathwise (a b : Key) (ha : AllProper a) (hb : AllProper b) :
     equalsOrContainsPath (renderKey a) (renderKey b) = true ↔ a <+: b := ecp_keys ha hb
